@@ -327,9 +327,9 @@ Inv_C09 == Ok("C09")
 Inv_C10 == Ok("C10")
 Inv_C11 == Ok("C11")
 \* the same formulas as in the exhaustive models, over the reconstructed observation state
-Inv_Prefix == \A k \in DOMAIN st : IsPrefix(st[k].delivered, st[k].committed)
-Inv_Bound == cfg # <<>> => \A k \in DOMAIN st : BoundOK(st[k].sent, st[k].granted, cfg[Oth(k[1])].rbuf)
-Inv_Grant == \A k \in DOMAIN st : st[k].grantedE <= st[k].arrived
+Inv_Prefix == Checked("C01") => \A k \in DOMAIN st : IsPrefix(st[k].delivered, st[k].committed)
+Inv_Bound == Checked("C02") /\ cfg # <<>> => \A k \in DOMAIN st : BoundOK(st[k].sent, st[k].granted, cfg[Oth(k[1])].rbuf)
+Inv_Grant == Checked("C02") => \A k \in DOMAIN st : st[k].grantedE <= st[k].arrived
 
 Accepted == IF TLCGet("stats").diameter - 1 = Len(Rec) THEN TRUE
             ELSE Print(<<"TRACE NOT CONSUMED", TLCGet("stats").diameter - 1, Len(Rec)>>, FALSE)
